@@ -121,9 +121,13 @@ def value_of(plan, kw):
     if k == "bytes":
         return mkbytes([kw[n] for n in plan[1]])
     if k == "text":
+        # one path per code point (the windows are four values wide): the text is a real str, so that str.encode inside
+        # xdis runs the interpreter's codec with its error handler - CrossHair's own model of encode() on a symbolic str
+        # ignores the handler (it missed seed C13-e, "surrogateescape" for "surrogatepass")
+        from crosshair.core import realize
         s = ""
         for n in plan[1]:
-            s = s + chr(kw[n])
+            s = s + chr(realize(kw[n]))
         return s
     if k == "tuple":
         return tuple(value_of(c, kw) for c in plan[1])
